@@ -109,7 +109,7 @@ def avg_body(ctx, case):
     ctx.case(case, nontrivial=nchol >= 2 and comm > 1e-6, classes=["fp-average:" + case["kind"], f"nchol={nchol}", f"n_exp_terms={case['n_exp_terms']}"])
     import scipy.sparse as sp
 
-    R = []
+    R, RV = [], []
     n_exp = int(case["n_exp_terms"])
     for dt in DTS:
         try:
@@ -125,6 +125,8 @@ def avg_body(ctx, case):
             acc += wq[k] * nm[k] * F.slater(Wu[k], Wd[k])
         ref = F.expm_apply(-dt * (Hm - float(case["ene0"]) * sp.identity(F.dim, format="csr")), s.phi, idx)
         R.append(float(np.linalg.norm(acc - ref) / np.linalg.norm(ref)))
+        RV.append((acc - ref) / np.linalg.norm(ref))
+    share = measure.first_order_share(RV, DTS)
     # Taylor truncation floor of the field exponential for the largest node
     lmax = float(np.max(np.abs(x))) * math.sqrt(DTS[-1]) * float(sum(np.linalg.norm(L, 2) for L in chol))
     floor = 1e-11 + 10 * lmax**n_exp / math.factorial(n_exp)
@@ -134,7 +136,10 @@ def avg_body(ctx, case):
             ctx.count("at-truncation-or-roundoff-floor")
             continue
         if not (a / max(b, 1e-300) >= 3.0):
-            ctx.fail(f"fp-average:not-second-order:{case['kind']}", case, f"residuals {R} for dt {DTS}: R({d})/R({d / 2}) = {a / max(b, 1e-300):.2f} < 3 (floor {floor:.1e})")
+            if share <= 0.2:  # cubic term opposing the quadratic one, nothing first order (see measure.first_order_share)
+                ctx.count("ratio-below-3-but-no-first-order-term(cubic-crossover)")
+                continue
+            ctx.fail(f"fp-average:not-second-order:{case['kind']}", case, f"residuals {R} for dt {DTS}: R({d})/R({d / 2}) = {a / max(b, 1e-300):.2f} < 3 (floor {floor:.1e}) and a term linear in dt explains {share:.0%} of R({DTS[-1]})")
             return
     hnorm = abs(float(case["ham"]["h0"])) + abs(float(case["ene0"])) + float(np.sum(np.abs(case["ham"]["h1"]))) / 2 + float(np.sum(np.sum(np.abs(chol), axis=(1, 2)) ** 2))
     if not R[-1] <= 50.0 * (1 + hnorm) ** 3 * DTS[-1] ** 2 + floor:
@@ -172,7 +177,8 @@ def hist_body(ctx, case):
     mffp = np.asarray(hd["mf_shifts_fp"])
     h0fp = np.asarray(hd["h0_prop_fp"])
     Qu, Qd, nm = np.asarray(pd["walkers"][0]), np.asarray(pd["walkers"][1]), np.asarray(pd["norms"])
-    ov, nov = np.asarray(pd["overlaps"]), np.asarray(pd["normed_overlaps"])
+    ov = np.asarray(pd["overlaps"])
+    nov = np.asarray(pd["normed_overlaps"]) if "normed_overlaps" in pd else None
     for i in range(nw):
         u, d = ups[i].copy(), dns[i].copy()
         rem = 0.0
@@ -199,7 +205,11 @@ def hist_body(ctx, case):
         psi = s0.psi
         pn = float(np.linalg.norm(psi))
         ctx.check_close("fp-bookkeeping:stored-overlap", case, "overlaps - <psi_T|norms Slater(Q)>", ov[i], np.vdot(psi, got), 1e-9, pn * float(np.linalg.norm(got)) + 1e-300)
-        ctx.check_close("fp-bookkeeping:normed-overlap", case, "normed_overlaps - <psi_T|Slater(Q)>", nov[i], np.vdot(psi, F.slater(Qu[i], Qd[i])), 1e-9, pn)
+        # normed_overlaps is the overlap of a *second* QR of the already orthonormal walker. The statement says nothing about it and nothing
+        # reads it; LAPACK may return that second Q with some columns negated (it does when a leading entry has an exactly zero real part),
+        # so only the modulus is determined by the represented state.
+        if nov is not None:
+            ctx.check_close("fp-bookkeeping:normed-overlap-modulus", case, "|normed_overlaps| - |<psi_T|Slater(Q)>|", abs(nov[i]), abs(np.vdot(psi, F.slater(Qu[i], Qd[i]))), 1e-9, pn)
 
 
 # ---- (c) block energy of the free-projection sampler ------------------------------------------------------------------
